@@ -27,3 +27,25 @@ PROPS["C15"] = {
         H("c15::c15_full_sync_move_n2_l5", inst="FullSyncMove<u32,2>", bounds="L=5, origin any u32", oracle="answers identical to a fresh (origin 0) instance"),
     ],
 }
+
+_C08_STUBS = ["std::hint::spin_loop -> no-op (the x86 `pause` intrinsic is unsupported by Kani and has no semantics)"]
+_CH_STUBS = _C08_STUBS + ["StreamsManagerBase::wake_stream -> no-op (delivery-only oracle: waking cannot change what consume() returns)",
+                          "<[u32]>::sort_unstable -> insertion sort (justified by c00::sort_stub_agrees_with_real_sort)"]
+PROPS["C08"] = {
+    "bounds": "engine K: solver-chosen scripts of L operations out of {reserve+fill(any u32), send-reserved(oldest), send-reserved(newest, out of order), cancel(newest), plain send(any u32), receive}, origin any u32, then resolve all reservations (solver picks send/cancel), drain, refill BUFFER_SIZE, one extra send must be rejected; L=5,N=2 (quick) / L=6,N=4 (thorough)",
+    "outside": "payloads with destructors (excluded by the statement); BUFFER_SIZE > 4; scripts longer than L; interleavings with a concurrently polling consumer are covered by engine M queries only within their thread/step bounds",
+    "functions": ["AtomicMove::{leak_slot_internal,try_publish_leaked_internal_index,try_unleak_slot_index_internal,slot_index_from_slot_ref,publish_movable,consume_movable}",
+                  "AtomicZeroCopy/FullSyncZeroCopy::{leak_slot,publish_leaked_id,release_leaked_id,publish_movable,consume_leaking}", "OgreArrayPoolAllocator::{alloc_ref,dealloc_id,ref_from_id}",
+                  "uni::channels::movable::atomic::Atomic::{reserve_slot,try_send_reserved,try_cancel_slot_reserve,send,consume} (thorough)"],
+    "assumptions": ["cancellations are issued in reverse reservation order and plain sends only while no reservation is outstanding on the movable atomic ring (both documented restrictions)",
+                    "the reservation that is next in line must be accepted by try_send_reserved in a sequential run (otherwise it could never be sent)"],
+    "k": [
+        H("c08::c08_ring_atomic_n2_l5", inst="AtomicMove<u32,2> driven as uni::channels::movable::atomic does", bounds="L=5, N=2, origin any u32", oracle="FIFO model of sent slots; capacity restored", stubs=_C08_STUBS),
+        H("c08::c08_zc_atomic_n2_l5", inst="AtomicZeroCopy<u32, OgreArrayPoolAllocator<u32,AtomicMove<u32,2>,2>, 2>", bounds="L=5, N=2, origin any u32", oracle="FIFO model of sent slots; capacity restored", stubs=_C08_STUBS),
+        H("c08::c08_zc_full_sync_n2_l5", inst="FullSyncZeroCopy<u32, OgreArrayPoolAllocator<u32,FullSyncMove<u32,2>,2>, 2>", bounds="L=5, N=2, origin any u32", oracle="FIFO model of sent slots; capacity restored", stubs=_C08_STUBS),
+        H("c08::c08_ring_atomic_n4_l6", tier="thorough", inst="AtomicMove<u32,4>", bounds="L=6, N=4, origin any u32", stubs=_C08_STUBS, group="g1"),
+        H("c08::c08_uni_move_atomic_n2_l3", tier="thorough", inst="ChannelUniMoveAtomic<u32,2,1>", bounds="L=3", stubs=_CH_STUBS, group="g1"),
+        H("c08::c08_uni_zero_copy_atomic_n2_l3", tier="thorough", inst="ChannelUniZeroCopyAtomic<u32,2,1>", bounds="L=3", stubs=_CH_STUBS, group="g1"),
+        H("c08::c08_uni_zero_copy_full_sync_n2_l3", tier="thorough", inst="ChannelUniZeroCopyFullSync<u32,2,1>", bounds="L=3", stubs=_CH_STUBS, group="g1"),
+    ],
+}
